@@ -71,17 +71,7 @@ Section C13.
     in_range v1 = true -> in_range v2 = true ->
     py_binop Pow v1 v2 = Some pv ->
     cxx_assign E (r_ty rp) (r_expr rp) = Some pv /\ r_ty rp = TDouble /\ type_of pv = TDouble.
-  Proof.
-    intros l r rp E v1 v2 pv Hv He1 Ht1 He2 Ht2 Hr1 Hr2 Hpy.
-    assert (Hd : type_of pv = TDouble).
-    { unfold Arith.py_binop in Hpy. destruct (width_of F v1), (width_of F v2); inversion Hpy; reflexivity. }
-    assert (Hrp : in_range pv = true) by (destruct pv; try reflexivity; discriminate Hd).
-    destruct (binop_column F fadd fsub fmul fdiv fpow fpow32 fpymod fneg feqb fltb fleb fzero of_Z narrow32
-                Pow l r rp E v1 v2 pv) as [H1 H2]; auto.
-    - unfold listed. tauto.
-    - simpl. exact I.
-    - split; [exact H1|]. split; [rewrite <- H2; exact Hd|exact Hd].
-  Qed.
+  Proof. exact (pow_correct F fadd fsub fmul fdiv fpow fpow32 fpymod fneg feqb fltb fleb fzero of_Z narrow32). Qed.
 
   (* Unary + - not: '+' and '-' on int/float/double operands and 'not' on anything give Python's
      value; the column of the declared type holds it widened (not x on an int x is declared int and
